@@ -46,6 +46,7 @@ pub fn decls() -> Vec<Item> {
         Item::Decl(Some("q"), "u1"),
         Item::Decl(Some("xml"), XML_NS),
         Item::Decl(Some("xml"), "u9"),
+        Item::Decl(Some("xml"), ""),
     ]
 }
 pub fn attrs() -> Vec<Item> {
@@ -538,6 +539,17 @@ fn value_sweep(ctx: &Ctx, st: &Stats, tier: Tier) -> usize {
         strs.extend(next.iter().cloned());
         level = next;
     }
+    // every character U+0001..=U+02FF (C0, C1, Latin-1, first non-Latin blocks) and some from the other
+    // planes as a literal, alone and between ordinary characters
+    for cp in (1u32..=0x2FF).chain([0x2028, 0x2029, 0xFEFF, 0xFFFD, 0xFFFE, 0xFFFF, 0x10000, 0x10FFFF]) {
+        if let Some(c) = char::from_u32(cp) {
+            if matches!(c, '<' | '&') {
+                continue; // markup; their escaped forms are in `sig`
+            }
+            strs.push(c.to_string());
+            strs.push(format!("a{c}b"));
+        }
+    }
     let n = strs.len();
     strs.par_iter().for_each(|s| {
         let mut local = BTreeSet::new();
@@ -547,6 +559,10 @@ fn value_sweep(ctx: &Ctx, st: &Stats, tier: Tier) -> usize {
             format!("<a b=\"{attr_dq}\"/>"),
             format!("<a><b>{s}</b>x{s}<c d=\"{attr_dq}\">{s}</c></a>"),
             format!("<p:a xmlns:p=\"u\" p:b=\"{attr_dq}\">{s}</p:a>"),
+            // namespace names are attribute values too
+            format!("<a xmlns=\"u{attr_dq}\"><b/></a>"),
+            format!("<p:a xmlns:p=\"u{attr_dq}\" p:b=\"1\"><c p:d=\"2\"/></p:a>"),
+            format!("<!--{}--><?pi {}?><a/>", s.replace("--", "- -").replace('>', "}"), s.replace("?>", "? >")),
         ];
         for d in docs {
             st.evals.fetch_add(1, Ordering::Relaxed);
